@@ -245,4 +245,53 @@ func genC11(c *Ctx) {
 			Tags: []string{"arr", "random"},
 		})
 	}
+	// ---- the same slice expression evaluated several times in one program with other values of its bounds (a function
+	// called in a chain): bounds written as prefix / infix expressions of a parameter; every evaluation uses the
+	// values of that time
+	type form struct {
+		src              string
+		start, stop, stp func(k int64) bnd
+	}
+	none := func(int64) bnd { return bnd{kind: "nil"} }
+	iv := func(f func(k int64) int64) func(int64) bnd { return func(k int64) bnd { return bnd{"int", f(k)} } }
+	forms := []form{
+		{"s[-k:]", iv(func(k int64) int64 { return -k }), none, none},
+		{"s[:-k]", none, iv(func(k int64) int64 { return -k }), none},
+		{"s[::-k]", none, none, iv(func(k int64) int64 { return -k })},
+		{"s[+k:]", iv(func(k int64) int64 { return k }), none, none},
+		{"s[k - 1:k + 2]", iv(func(k int64) int64 { return k - 1 }), iv(func(k int64) int64 { return k + 2 }), none},
+		{"s[-k:-1:k]", iv(func(k int64) int64 { return -k }), iv(func(k int64) int64 { return -1 }), iv(func(k int64) int64 { return k })},
+		{"s[k:]", iv(func(k int64) int64 { return k }), none, none},
+		{"s[::k]", none, none, iv(func(k int64) int64 { return k })},
+		{"s[(k * 2):-(k)]", iv(func(k int64) int64 { return k * 2 }), iv(func(k int64) int64 { return -k }), none},
+	}
+	for fi, fm := range forms {
+		for _, n := range []int{0, 1, 5, 7} {
+			if !c.Mine() {
+				continue
+			}
+			es := []string{}
+			for i := 0; i < n; i++ {
+				es = append(es, fmt.Sprint(i))
+			}
+			ks := []int64{2, 4, 1, 3, 2}
+			kss := []string{}
+			for _, k := range ks {
+				kss = append(kss, fmt.Sprint(k))
+			}
+			src := fmt.Sprintf("s := [%s]\ng := {|k| %s}\n[%s]@{|k| g(k)}", strings.Join(es, ", "), fm.src, strings.Join(kss, ", "))
+			o := c.It.Run(src, "")
+			arr, ok := o.Obj.(*object.PanArr)
+			if o.Kind != "val" || !ok || len(arr.Elems) != len(ks) {
+				c.Em.Emit(Rec{Src: src, Impl: o.Canon(), NT: true, Tags: []string{"arr", "reevaluated"}, Oracle: "the re-evaluated slice program did not give one result per call: " + o.Canon() + " " + o.ErrMsg})
+				continue
+			}
+			for j, k := range ks {
+				a, b, st := fm.start(k), fm.stop(k), fm.stp(k)
+				c.Em.Emit(Rec{Case: fmt.Sprintf("C11 arr %d %s %s %s", n, a.tok(), b.tok(), st.tok()), Impl: canonArrResult(arr.Elems[j], ""),
+					Src: src + fmt.Sprintf("   # call %d (k = %d)", j, k), NT: n > 0, Tags: []string{"arr", "reevaluated", fmt.Sprintf("form%d", fi)}})
+			}
+		}
+	}
+
 }
